@@ -104,6 +104,28 @@ CHECKS = {
             "(example, seed/flags) under every batch size, subset and permutation.",
             "Trusted: TLC; Tanh.forward patched to z*z in the worker for exact integer multipliers; CRC32 digests.",
             "DESIGN.md §5 C06"),
+    "C04": (["Rat", "DeepLiftOps", "DeepLift", "DeepLiftMC", "DeepLift_Oracle"],
+            "TLA+ spec of exact network semantics and the DeepLIFT rescale rule over rationals (DeepLiftOps); design model "
+            "DeepLift.tla model-checked with TLC (SumToDelta at every layer of an exhaustive tiny family); TLC as exact oracle "
+            "for random networks run through the real deep_lift_shap, compared under a float tolerance",
+            "TLC proves, by exhaustive enumeration of a tiny network family, that the specified rule satisfies summation-to-delta "
+            "at every layer; for seeded random architectures of the stated generator TLC computes the exact forward values "
+            "model(x), model(ref) (asserting SumToDelta again per case) and the implementation's per-pair and per-example sums must "
+            "match them; no convergence warning may be emitted.",
+            "Trusted: TLC; float64 vs exact rationals at 1e-8 relative; transcendental activations replaced by exact polynomial "
+            "forwards (their float rounding is outside TLA+); max-pool windows non-overlapping.",
+            "DESIGN.md §5 C04/C05"),
+    "C05": (["Rat", "DeepLiftOps", "DeepLift", "DeepLiftMC", "DeepLift_Oracle"],
+            "TLA+ spec of the rescale rule over rationals (DeepLiftOps) used as an independent layer-by-layer evaluation; design "
+            "model DeepLift.tla model-checked (SumToDelta, AffineClosedForm); multipliers and attributions of the real "
+            "deep_lift_shap compared with TLC's exact values",
+            "For seeded random architectures TLC evaluates the multipliers (transpose propagation, (g(x)-g(r))/(x-r) or g' where "
+            "inputs coincide), the hypothetical projection and the reference average in exact rationals; every multiplier and "
+            "attribution entry returned by deep_lift_shap (raw, processed, hypothetical) must equal them; the affine closed form is "
+            "an invariant of the design model and a sub-family of the generator.",
+            "Trusted: TLC; 1e-8 relative tolerance; |delta_in| is 0 or >= 2^-16 (ambiguous band excluded as the property states); "
+            "every supported activation class is exercised, the transcendental ones through an exact polynomial forward.",
+            "DESIGN.md §5 C04/C05"),
 }
 
 ALL = ["C%02d" % i for i in range(1, 21)]
